@@ -850,7 +850,7 @@ func c06NoRemovalWhileIterating(c *Ctx) {
 				res = true
 			}
 			if sc := cl.Call.StaticCallee(); sc != nil {
-				if sc.Pkg != nil && sc.Pkg.Pkg.Path() == "slices" && (strings.HasPrefix(sc.Name(), "Delete") || strings.HasPrefix(sc.Name(), "Insert")) && len(cl.Call.Args) > 0 && derived(cl.Call.Args[0]) {
+				if (isSlicesFunc(sc, "Delete") || isSlicesFunc(sc, "Insert")) && len(cl.Call.Args) > 0 && derived(cl.Call.Args[0]) {
 					res = true
 				}
 				if funcPkgPath(sc) == funcPkgPath(g) && shifts(sc, fld, depth+1) {
@@ -2195,6 +2195,94 @@ func c16PathsGiveTheirConnIDBack(c *Ctx) {
 			"all paths are forgotten after a switch (pm.paths is cleared) and the connection goes on with the active connection ID: the ID taken for the path switched to must be retired like the others, or every migration leaks one of the peer's IDs")
 	}
 	c.Floor(R, "path removals checked", n, 2)
+}
+
+// C07.8: forgetting received packets raises the duplicate threshold. The history forgets in two places — DeleteBelow
+// (the peer acknowledged our ACK) and the DoS defence that prunes the oldest ranges beyond MaxNumAckRanges. Both must
+// leave deletedBelow at or above what was dropped, or IsPotentiallyDuplicate answers "new" for a packet that was
+// already processed and its frames are handled a second time.
+func c07ForgettingRaisesThreshold(c *Ctx) {
+	const R = "C07.8"
+	ranges := c.fld(ah, "receivedPacketHistory", "ranges")
+	db := c.fld(ah, "receivedPacketHistory", "deletedBelow")
+	n := 0
+	for _, name := range []string{"ReceivedPacket", "DeleteBelow"} {
+		f := c.fn(ah, "receivedPacketHistory", name)
+		dels := findInstrs(f, func(in ssa.Instruction) bool {
+			st, ok := in.(*ssa.Store)
+			if !ok || fieldOfAddress(st.Addr) != ranges {
+				return false
+			}
+			cl, ok := stripConv(st.Val).(*ssa.Call)
+			if !ok {
+				return false
+			}
+			// removal from the FRONT (slices.Delete(ranges, 0, k)): the merge of two adjacent ranges deletes in the middle
+			// and forgets nothing
+			return isSlicesFunc(cl.Call.StaticCallee(), "Delete") && len(cl.Call.Args) == 3 && ConstI(0)(cl.Call.Args[1])
+		})
+		for _, in := range dels {
+			in := in
+			n++
+			// a store of deletedBelow on every path through the removal, before or after it
+			before := (&Cut{Fn: f, Target: func(x ssa.Instruction) bool { return x == in }, Barrier: StoresTo(db)}).Run()
+			var after *Witness
+			if before != nil {
+				after = (&Cut{Fn: f, Start: func(x ssa.Instruction) bool { return x == in }, Target: isReturn, Barrier: StoresTo(db)}).Run()
+			}
+			c.Check(before == nil || after == nil, R, fmt.Sprintf("forget:%s raises deletedBelow when it drops ranges#%d", name, n), c.P.InstrPos(in),
+				"ranges dropped without raising the threshold make already processed packets look new: their frames are handled twice and they are acknowledged again")
+		}
+	}
+	c.Floor(R, "removals from the front of the received ranges", n, 2)
+}
+
+// isSlicesFunc: sc is (an instantiation of) a function of package slices whose name starts with prefix.
+func isSlicesFunc(sc *ssa.Function, prefix string) bool {
+	if sc == nil {
+		return false
+	}
+	g := sc
+	if o := sc.Origin(); o != nil {
+		g = o
+	}
+	return g.Pkg != nil && g.Pkg.Pkg.Path() == "slices" && strings.HasPrefix(g.Name(), prefix)
+}
+
+// C04.6: a MAX_STREAM_DATA / MAX_DATA frame is built only for a non-zero window update. GetWindowUpdate returns 0 for
+// "nothing to announce" (in particular once the final offset of the stream is known); wrapped into a frame
+// unconditionally that is a limit of 0, lower than what was advertised before. The connection-level caller tests
+// `offset > 0`; the stream-level one must agree.
+func c04NoZeroWindowUpdateFrame(c *Ctx) {
+	const R = "C04.6"
+	type site struct {
+		fn    *ssa.Function
+		field *types.Var
+		what  string
+	}
+	gwS := c.obj("internal/flowcontrol", "StreamFlowController", "GetWindowUpdate")
+	gwC := c.obj("internal/flowcontrol", "ConnectionFlowController", "GetWindowUpdate")
+	msd := c.fld("internal/wire", "MaxStreamDataFrame", "MaximumStreamData")
+	md := c.fld("internal/wire", "MaxDataFrame", "MaximumData")
+	n := 0
+	for _, f := range c.P.ScopeFuncs() {
+		if funcPkgPath(f) != modPath {
+			continue
+		}
+		for _, in := range findInstrsLocal(f, StoresTo(msd, md)) {
+			st := in.(*ssa.Store)
+			isUpd := func(v ssa.Value) bool { return CallTo(gwS, -1)(v) || CallTo(gwC, -1)(v) }
+			if !isUpd(stripConv(st.Val)) {
+				continue
+			}
+			n++
+			c.FuncsSet[funcName(rootFn(f))] = true
+			ok := dominatedByEdge(st.Block(), Rel{Op: token.GTR, X: isUpd, Y: ConstI(0)}, false) || dominatedByEdge(st.Block(), Rel{Op: token.NEQ, X: isUpd, Y: ConstI(0)}, false)
+			c.Check(ok, R, fmt.Sprintf("nonzero:%s announces a window update only when there is one#%d", funcName(rootFn(f)), n), c.P.InstrPos(in),
+				"GetWindowUpdate() == 0 means no update: a frame with that value advertises a limit of 0")
+		}
+	}
+	c.Floor(R, "window-update frames built from GetWindowUpdate", n, 2)
 }
 
 // valueOf: the instruction as a value (nil if it is not one).
